@@ -400,14 +400,17 @@ def split_case(rng, workdir, k):
         # integer tag values as written by the taggers (e.g. a cell index), starting at 0; no collisions: file <v-1>.bam
         fmap = list(range(1, nvals + 1))
         rawname = {v: v - 1 for v in fmap}
+    unsorted_input = rng.random() < 0.2
     reads = []
     for i, v in enumerate(vals):
-        reads.append(bamgen.make_read(header, 'r%d' % (i + 1), 'chrA', 10 * i, 'ACGT',
+        # one case in five is an unsorted (legal) BAM: coordinates decrease, so building the .bai of the outputs fails inside
+        # the tool (index_bam swallows that); the split itself must be unaffected
+        reads.append(bamgen.make_read(header, 'r%d' % (i + 1), 'chrA', 10 * (len(vals) + 30 - i) if unsorted_input else 10 * i, 'ACGT',
                                       tags={'SM': rawname[v]} if v else {'XX': 1}))
     def out_name(f):
         return '%d.bam' % (f - 1) if int_tags else 'cell_%d.bam' % f
     inp = os.path.join(workdir, 'in.bam')
-    bamgen.write_bam(inp, header, reads, sort=False)
+    bamgen.write_bam(inp, header, reads, sort=False, index=False)
     outdir = os.path.join(workdir, 'out') + '/'
     # a second run into the same output folder: a stale (here: garbage) file of an earlier run sits at the path of an
     # output file this run produces; it must be replaced
